@@ -402,6 +402,14 @@ class Graph(object):
                 self._hessian[hessian_col_idx: hessian_col_idx + cols, hessian_row_idx: hessian_row_idx + rows] = np.transpose(contrib)
                 # fmt: on
 
+        # A fixed vertex that is not constrained by any edge still needs its identity block, otherwise the Hessian is singular
+        for v in self._vertices:
+            if v.gradient_index in self._fixed_gradient_indices:
+                n = v.pose.COMPACT_DIMENSIONALITY
+                # fmt: off
+                self._hessian[v.gradient_index: v.gradient_index + n, v.gradient_index: v.gradient_index + n] = np.eye(n)
+                # fmt: on
+
     def optimize(self, tol=1e-4, max_iter=20, fix_first_pose=True, verbose=True):
         r"""Optimize the :math:`\chi^2` error for the ``Graph``.
 
@@ -484,6 +492,10 @@ class Graph(object):
             # Apply the updates
             update_start_time = time.time()
             for v in self._vertices:
+                # Fixed vertices never move, whatever the solver returned (e.g., NaNs for a singular system)
+                if v.gradient_index in self._fixed_gradient_indices:
+                    continue
+
                 # fmt: off
                 v.pose += dx[v.gradient_index: v.gradient_index + v.pose.COMPACT_DIMENSIONALITY]
                 # fmt: on
